@@ -185,7 +185,7 @@ func UpdatePathAttrs4ByteAs(logger *slog.Logger, msg *bgp.BGPUpdate) {
 		if keepNum-param.ASLen() >= 0 {
 			newParams = append(newParams, param)
 			keepNum -= param.ASLen()
-		} else {
+		} else if keepNum > 0 {
 			// only SEQ param reaches here
 			newParams = append(newParams, bgp.NewAs4PathParam(param.GetType(), param.GetAS()[:keepNum]))
 			keepNum = 0
@@ -197,6 +197,10 @@ func UpdatePathAttrs4ByteAs(logger *slog.Logger, msg *bgp.BGPUpdate) {
 	}
 
 	for _, param := range as4Params {
+		if len(newParams) == 0 {
+			newParams = append(newParams, param)
+			continue
+		}
 		lastParam := newParams[len(newParams)-1]
 		lastParamAS := lastParam.GetAS()
 		paramType := param.GetType()
